@@ -240,8 +240,10 @@ loadBinaryEdgeList(
     VertexIndex vertex1, vertex2;
     EdgeLabel label;
     while (readBinaryValue(fileStream, vertex1)) {
-        readBinaryValue(fileStream, vertex2);
-        fromBinary(fileStream, label);
+        // ignore a trailing incomplete record (truncated file)
+        if (!readBinaryValue(fileStream, vertex2) ||
+            !fromBinary(fileStream, label))
+            break;
 
         if (vertex1 >= returnedGraph.getSize())
             returnedGraph.resize(vertex1 + 1);
@@ -265,7 +267,9 @@ loadBinaryEdgeList(const std::string &fileName) {
     VertexIndex vertex1, vertex2;
     NoLabel label;
     while (readBinaryValue(fileStream, vertex1)) {
-        readBinaryValue(fileStream, vertex2);
+        // ignore a trailing incomplete record (truncated file)
+        if (!readBinaryValue(fileStream, vertex2))
+            break;
 
         if (vertex1 >= returnedGraph.getSize())
             returnedGraph.resize(vertex1 + 1);
